@@ -150,7 +150,7 @@ def run_tapped_case(ctx, kind_, idx):
     if kind_ == "huge":
         # a day of per-second traffic: 66 000..90 000 samples whose POWER varies along the series (quiet night, busy
         # evening) - mean(y^2) is one number for the whole signal, whatever way it is accumulated
-        n = int(rng.integers(66000, 90001))
+        n = gen.huge_size(rng)
         u = np.linspace(0.0, 1.0, n)
         a = (0.2 + 4.0 * u ** 2) * (1.0 + 0.3 * np.sin(40 * u)) + rng.normal(0, 0.05, n)
         acls = "long_varying_power"
